@@ -82,21 +82,13 @@ impl OutputFormat for TundraDraw {
                     return Err(SavingError::Only8BitCharactersSupported.into());
                 }
 
-                if (1..=6).contains(&ch) {
-                    // fake color change to represent control characters
-                    result.push(TUNDRA_COLOR_FOREGROUND);
-                    result.push(ch as u8);
-
-                    let rgb = buf.palette.get_rgb(attr.get_foreground());
-                    result.push(0);
-                    result.push(rgb.0);
-                    result.push(rgb.1);
-                    result.push(rgb.2);
-                    continue;
-                }
+                // characters 1..=6 are command bytes: they can only be stored as the character of a colour command,
+                // so they always get a foreground command carrying the colour of their own cell
+                let is_command_byte = (1..=6).contains(&ch);
 
                 let mut cmd = 0;
-                let write_foreground = buf.palette.get_color(attr.get_foreground()).get_rgb() != buf.palette.get_color(cur_attr.get_foreground()).get_rgb()
+                let write_foreground = is_command_byte
+                    || buf.palette.get_color(attr.get_foreground()).get_rgb() != buf.palette.get_color(cur_attr.get_foreground()).get_rgb()
                     || attr.is_bold() != cur_attr.is_bold();
                 if write_foreground {
                     cmd |= TUNDRA_COLOR_FOREGROUND;
